@@ -111,7 +111,9 @@ type History struct {
 	Index  int               `json:"index"`
 }
 
-var addrPool = []string{"127.0.0.1:8091", "10.0.0.2:8091", "10.0.0.2:8092", "192.168.1.7:18091", "tc-0.seata:8091", "[::1]:8091"}
+// the first entries are in a string-prefix relation with each other (port 809 / 8091 / 80,
+// ip 10.0.0.1 / 10.0.0.10): an address comparison that is not an equality shows
+var addrPool = []string{"10.0.0.1:8091", "10.0.0.1:809", "10.0.0.10:8091", "10.0.0.1:80", "10.0.0.2:8091", "10.0.0.2:8092", "tc-0.seata:8091", "[::1]:8091"}
 var policies = []string{"RandomLoadBalance", "XID", "RoundRobinLoadBalance", "ConsistentHashLoadBalance", "LeastActiveLoadBalance"}
 var oddPolicies = []string{"", "Random", "xid", "ConsistentHash", "LeastActive "}
 
@@ -234,59 +236,16 @@ func runHistory(r *hutil.Rng, idx int) History {
 			}
 			xid := genXid(r, liveAddrs)
 			h.Hash[hx(xid)] = md5pos(xid)
-			ev := Event{K: "select", Policy: p, Xid: hx(xid)}
-			var got gettylib.Session
-			class, detail := hutil.Guard(6*time.Second, func() error {
-				got = loadbalance.Select(p, m, xid)
-				return nil
-			})
-			ev.Class = class
-			if class != hutil.OutOK {
-				ev.Oracle = "Select " + class + ": " + firstLine(detail)
-			} else if got == nil {
-				ev.Nil = true
-				if len(live) > 0 {
-					ev.Oracle = fmt.Sprintf("Select(%s) returned nil although %d registered session(s) are open", p, len(live))
+			// the same selection several times: sync.Map iteration order varies between calls
+			reps := 1 + r.Intn(3)
+			for rep := 0; rep < reps; rep++ {
+				ev := doSelect(p, m, xid, reg, live)
+				feat[p] = true
+				if ev.Oracle != "" && h.Oracle == "" {
+					h.Oracle, h.BadAt = ev.Oracle, len(h.Events)
 				}
-			} else {
-				fs, ok := got.(*fakeSession)
-				if !ok {
-					ev.Oracle = "Select returned a foreign session"
-				} else {
-					ev.Pick = fs.id
-					var ent *regEntry
-					for _, e := range reg {
-						if e.s == fs {
-							ent = e
-						}
-					}
-					switch {
-					case fs.IsClosed():
-						ev.Oracle = fmt.Sprintf("Select(%s) returned the CLOSED session %d (%s) while %d open session(s) are registered", p, fs.id, fs.addr, len(live))
-					case ent == nil || ent.released:
-						ev.Oracle = fmt.Sprintf("Select(%s) returned session %d which is not registered", p, fs.id)
-					case p == "XID":
-						parts := strings.Split(xid, ":")
-						if len(parts) == 3 {
-							want := parts[0] + ":" + parts[1]
-							has := false
-							for _, e := range live {
-								if e.s.addr == want {
-									has = true
-								}
-							}
-							if has && fs.addr != want {
-								ev.Oracle = fmt.Sprintf("XID policy: xid %q went to %s although an open session to %s exists", xid, fs.addr, want)
-							}
-						}
-					}
-				}
+				h.Events = append(h.Events, ev)
 			}
-			feat[p] = true
-			if ev.Oracle != "" && h.Oracle == "" {
-				h.Oracle, h.BadAt = ev.Oracle, len(h.Events)
-			}
-			h.Events = append(h.Events, ev)
 		}
 	}
 	for k := range feat {
@@ -301,6 +260,61 @@ func runHistory(r *hutil.Rng, idx int) History {
 	return h
 }
 
+// doSelect calls the real Select once and evaluates the property on the answer
+func doSelect(p string, m *sync.Map, xid string, reg []*regEntry, live []*regEntry) Event {
+	ev := Event{K: "select", Policy: p, Xid: hx(xid)}
+	var got gettylib.Session
+	class, detail := hutil.Guard(6*time.Second, func() error {
+		got = loadbalance.Select(p, m, xid)
+		return nil
+	})
+	ev.Class = class
+	if class != hutil.OutOK {
+		ev.Oracle = "Select " + class + ": " + firstLine(detail)
+		return ev
+	}
+	if got == nil {
+		ev.Nil = true
+		if len(live) > 0 {
+			ev.Oracle = fmt.Sprintf("Select(%s) returned nil although %d registered session(s) are open", p, len(live))
+		}
+		return ev
+	}
+	fs, ok := got.(*fakeSession)
+	if !ok {
+		ev.Oracle = "Select returned a foreign session"
+		return ev
+	}
+	ev.Pick = fs.id
+	var ent *regEntry
+	for _, e := range reg {
+		if e.s == fs {
+			ent = e
+		}
+	}
+	switch {
+	case fs.IsClosed():
+		ev.Oracle = fmt.Sprintf("Select(%s) returned the CLOSED session %d (%s) while %d open session(s) are registered", p, fs.id, fs.addr, len(live))
+	case ent == nil || ent.released:
+		ev.Oracle = fmt.Sprintf("Select(%s) returned session %d which is not registered", p, fs.id)
+	case p == "XID":
+		parts := strings.Split(xid, ":")
+		if len(parts) == 3 {
+			want := parts[0] + ":" + parts[1]
+			has := false
+			for _, e := range live {
+				if e.s.addr == want {
+					has = true
+				}
+			}
+			if has && fs.addr != want {
+				ev.Oracle = fmt.Sprintf("XID policy: xid %q went to the session connected to %s although an open session to %s exists", xid, fs.addr, want)
+			}
+		}
+	}
+	return ev
+}
+
 func firstLine(s string) string {
 	if i := strings.IndexByte(s, '\n'); i >= 0 {
 		return s[:i]
@@ -311,10 +325,15 @@ func firstLine(s string) string {
 // ---------------------------------------------------------------- re-announcement histories
 
 type CEvent struct {
-	K    string   `json:"k"` // resource | lost | reconnect
-	Res  string   `json:"res,omitempty"`
-	Sent []string `json:"sent"` // requests written as a consequence: "TM" | "RM:<resource ids>" | other type names
-	Sess int      `json:"sess"` // session they were written on (0: none)
+	K      string   `json:"k"` // resource | lost | reconnect
+	Res    string   `json:"res,omitempty"`
+	ByPeer bool     `json:"by_peer,omitempty"` // lost: the session was already closed when the handler released it
+	Via    string   `json:"via,omitempty"`     // lost: OnClose | OnError
+	Addr   string   `json:"addr"`              // address of the session the event is about
+	Sent   []string `json:"sent"`              // requests written as a consequence: "TM" | "RM:<resource ids>" | other type names
+	Sess   int      `json:"sess"`              // session they were written on (0: none)
+	Per    int      `json:"per"`               // VerifServerSessions(addr) after the event: entries recorded under the address
+	All    int      `json:"all"`               // ... and size of the registry used for selection
 	// reconnect events: the property evaluated on the real run
 	Oracle string   `json:"oracle,omitempty"`
 	Pred   []string `json:"pred,omitempty"` // feature predicates of KNOWN_FINDINGS the history up to here satisfies
@@ -416,25 +435,25 @@ func sentOf(s *fakeSession, from int) []string {
 
 var resCounter int
 
-// one history: the client starts connected (session 1 opened through OnOpen)
+var clientAddrs = []string{"127.0.0.1:8091", "127.0.0.1:8092", "10.0.0.5:8091"}
+
+// one history through the REAL session manager paths (OnOpen -> registerSession,
+// OnClose/OnError -> releaseSession). Script tokens:
+//   resource | lost:open | lost:peer | reconnect:same | reconnect:other
+// lost:peer = the session is already closed when the handler hears about it (peer
+// reset / EOF); lost:open = released while still open (heart-beat retry path).
 func runClientHistory(r *hutil.Rng, script []string) CHistory {
 	initClient()
 	h := CHistory{BadAt: -1}
 	handler := getty.GetGettyClientHandlerInstance()
 	sid := 1000
-	newSession := func() *fakeSession {
-		sid++
-		return &fakeSession{id: sid, addr: "127.0.0.1:8091", onWrite: answer}
-	}
+	addrIdx := 0
 	var registered []string
-	cur := newSession()
-	class, detail := hutil.Guard(5*time.Second, func() error { return handler.OnOpen(cur) })
-	if class != hutil.OutOK {
-		h.Oracle = "OnOpen " + class + ": " + firstLine(detail)
-		return h
+	var cur *fakeSession
+	connected := false
+	counts := func(ev *CEvent) {
+		ev.Per, ev.All = getty.VerifServerSessions(ev.Addr)
 	}
-	waitWrites(cur, 1, 400*time.Millisecond)
-	connected := true
 	check := func(ev *CEvent, idx int) {
 		// the property on a new session: RegisterTM and RegisterRM for every registered resource
 		var missing []string
@@ -463,7 +482,7 @@ func runClientHistory(r *hutil.Rng, script []string) CHistory {
 			ev.Pred = []string{"reconnect.rm-reannounce"} // a resource was registered before the connection was lost
 		}
 		if len(missing) > 0 {
-			ev.Oracle = "after the connection was re-established the new session did not carry: " + strings.Join(missing, ", ")
+			ev.Oracle = fmt.Sprintf("after the connection was (re-)established the new session %d to %s did not carry: %s", ev.Sess, ev.Addr, strings.Join(missing, ", "))
 			if !hasTM {
 				ev.Pred = nil // a missing RegisterTM is not what the finding lists
 			}
@@ -473,8 +492,8 @@ func runClientHistory(r *hutil.Rng, script []string) CHistory {
 		}
 	}
 	for _, k := range script {
-		switch k {
-		case "resource":
+		switch {
+		case k == "resource":
 			if !connected {
 				continue // registering while disconnected waits 60 s for a session (C14/C15 territory)
 			}
@@ -486,10 +505,10 @@ func runClientHistory(r *hutil.Rng, script []string) CHistory {
 				h.Oracle = "ParseTwoPhaseAction: " + err.Error()
 				return h
 			}
-			class, detail := hutil.Guard(8*time.Second, func() error {
+			class, detail := hutil.Guard(12*time.Second, func() error {
 				return tcc.GetTCCResourceManagerInstance().RegisterResource(&tcc.TCCResource{ResourceGroupId: "DEFAULT", AppName: "verif-app", TwoPhaseAction: act})
 			})
-			ev := CEvent{K: "resource", Res: name, Sess: cur.id}
+			ev := CEvent{K: "resource", Res: name, Sess: cur.id, Addr: cur.addr}
 			if class != hutil.OutOK {
 				ev.Sent = []string{"<<" + class + ": " + firstLine(detail) + ">>"}
 				if h.Oracle == "" {
@@ -499,14 +518,22 @@ func runClientHistory(r *hutil.Rng, script []string) CHistory {
 				ev.Sent = sentOf(cur, before)
 				registered = append(registered, name)
 			}
+			counts(&ev)
 			h.Events = append(h.Events, ev)
-		case "lost":
+		case strings.HasPrefix(k, "lost"):
 			if !connected {
 				continue
 			}
 			s := cur
+			ev := CEvent{K: "lost", Sess: s.id, Addr: s.addr, Sent: []string{}, ByPeer: k == "lost:peer", Via: "OnClose"}
+			if ev.ByPeer {
+				s.Close() // the peer went away: getty finds the session closed and then tells the listener
+			}
+			if r.Chance(1, 2) {
+				ev.Via = "OnError"
+			}
 			hutil.Guard(5*time.Second, func() error {
-				if r.Chance(1, 2) {
+				if ev.Via == "OnClose" {
 					handler.OnClose(s)
 				} else {
 					handler.OnError(s, fmt.Errorf("connection reset by peer"))
@@ -514,15 +541,20 @@ func runClientHistory(r *hutil.Rng, script []string) CHistory {
 				return nil
 			})
 			connected = false
-			h.Events = append(h.Events, CEvent{K: "lost", Sess: s.id, Sent: []string{}})
-		case "reconnect":
+			counts(&ev)
+			h.Events = append(h.Events, ev)
+		case strings.HasPrefix(k, "reconnect"):
 			if connected {
 				continue
 			}
-			cur = newSession()
+			if k == "reconnect:other" {
+				addrIdx = (addrIdx + 1 + r.Intn(len(clientAddrs)-1)) % len(clientAddrs)
+			}
+			sid++
+			cur = &fakeSession{id: sid, addr: clientAddrs[addrIdx], onWrite: answer}
 			s := cur
 			class, detail := hutil.Guard(5*time.Second, func() error { return handler.OnOpen(s) })
-			ev := CEvent{K: "reconnect", Sess: s.id}
+			ev := CEvent{K: "reconnect", Sess: s.id, Addr: s.addr}
 			if class != hutil.OutOK {
 				ev.Sent = []string{"<<" + class + ": " + firstLine(detail) + ">>"}
 			} else {
@@ -531,10 +563,11 @@ func runClientHistory(r *hutil.Rng, script []string) CHistory {
 			}
 			connected = true
 			check(&ev, len(h.Events))
+			counts(&ev)
 			h.Events = append(h.Events, ev)
 		}
 	}
-	// leave no open session behind for the next history
+	// leave no open session behind
 	if connected {
 		s := cur
 		hutil.Guard(5*time.Second, func() error { handler.OnClose(s); return nil })
@@ -543,25 +576,36 @@ func runClientHistory(r *hutil.Rng, script []string) CHistory {
 	return h
 }
 
+// the scripts of one run are joined into ONE history (the client is process-global);
+// the first ones run before any resource exists (clean stream of the known finding) and
+// cover {lost while open, closed by the peer} x {reconnect to the same address, to
+// another one}, each combination twice in a row and then interleaved
 func genScript(r *hutil.Rng, i int) []string {
 	switch i {
 	case 0:
-		return []string{"lost", "reconnect", "lost", "reconnect"} // nothing registered yet: the full statement holds
+		return []string{"reconnect:same", // the first connection
+			"lost:open", "reconnect:same", "lost:open", "reconnect:same",
+			"lost:peer", "reconnect:same", "lost:peer", "reconnect:same",
+			"lost:open", "reconnect:other", "lost:open", "reconnect:other",
+			"lost:peer", "reconnect:other", "lost:peer", "reconnect:other",
+			"lost:peer", "reconnect:same", "lost:open", "reconnect:same", "lost:peer", "reconnect:other", "lost:peer", "reconnect:same"}
 	case 1:
-		return []string{"resource", "lost", "reconnect"} // the refutation witness of the model
+		return []string{"resource", "lost:peer", "reconnect:same"} // the refutation witness of the model
 	case 2:
-		return []string{"resource", "resource", "lost", "reconnect", "lost", "reconnect"}
+		return []string{"resource", "resource", "lost:open", "reconnect:same", "lost:peer", "reconnect:other"}
 	case 3:
-		return []string{"lost", "reconnect", "resource", "lost", "reconnect"}
+		return []string{"lost:peer", "reconnect:same", "resource", "lost:open", "reconnect:other"}
 	}
 	n := 3 + r.Intn(7)
 	var s []string
+	lost := []string{"lost:open", "lost:peer"}
+	rec := []string{"reconnect:same", "reconnect:same", "reconnect:other"}
 	for j := 0; j < n; j++ {
 		switch r.Intn(5) {
 		case 0, 1:
 			s = append(s, "resource")
 		default:
-			s = append(s, "lost", "reconnect")
+			s = append(s, lost[r.Intn(2)], rec[r.Intn(3)])
 		}
 	}
 	return s
@@ -605,7 +649,7 @@ func Run(a map[string]string) {
 		var script []string
 		for i := 0; i < nc; i++ {
 			script = append(script, genScript(r, i)...)
-			script = append(script, "lost", "reconnect")
+			script = append(script, []string{"lost:open", "lost:peer"}[r.Intn(2)], []string{"reconnect:same", "reconnect:other"}[r.Intn(2)])
 		}
 		res.Client = append(res.Client, runClientHistory(r, script))
 	}
